@@ -66,6 +66,8 @@ Proof.
   intros w o w1 H. unfold pop in H. destruct (w_script w) eqn:S; inversion H; subst; wcbn; auto.
 Qed.
 
+
+
 Definition hd_err (s : list outcome) : bool := match s with Err _ :: _ => true | _ => false end.
 
 Ltac popd w o w1 P :=
@@ -74,11 +76,14 @@ Ltac popd w o w1 P :=
   destruct (pop_frame _ _ _ P) as [F E]; destruct F as (?&?&?&?&?&?).
 
 Lemma k_fstat_spec : forall w which ok w', k_fstat w which = (ok, w') ->
-  frame w w' /\ (ok = true -> w_errno w' = w_errno w) /\ (ok = false -> exists e, w_errno w' = Z.pos e).
+  frame w w' /\ (ok = true -> w_errno w' = w_errno w) /\ (ok = false -> exists e, w_errno w' = Z.pos e) /\
+  w_script w' = tl (w_script w) /\ (hd_err (w_script w) = false -> ok = true).
 Proof.
   intros w which ok w' H. unfold k_fstat in H. popd w o w1 P.
+  destruct (pop_script _ _ _ P) as [Ho Hs].
   destruct o; inversion H; subst; wcbn; unfold frame; wcbn;
-    (split; [auto 10|split; [congruence|intro; try discriminate; eauto]]).
+    (split; [auto 10|split; [congruence|split; [intro; try discriminate; eauto|split; [exact Hs|]]]]); try reflexivity.
+  intro Hh. destruct (w_script w) as [|x l]; cbn in Ho; subst; discriminate.
 Qed.
 
 Lemma k_fdatasync_spec : forall w rc w', k_fdatasync w = (rc, w') ->
@@ -104,13 +109,17 @@ Proof.
 Qed.
 
 Lemma k_open_src_spec : forall w ok w', k_open_src w = (ok, w') ->
-  w_skind w' = w_skind w /\ w_src w' = w_src w /\ w_dst w' = w_dst w /\
+  w_skind w' = w_skind w /\ w_src w' = w_src w /\ w_dst w' = w_dst w /\ w_script w' = tl (w_script w) /\
   (ok = true -> w_fds w' = FSrc :: w_fds w /\ w_soff w' = O /\ w_skind w <> SMissing) /\
-  (ok = false -> w_fds w' = w_fds w /\ w_errno w' <> 0).
+  (ok = false -> w_fds w' = w_fds w /\ w_errno w' <> 0) /\
+  (hd_err (w_script w) = false -> w_skind w <> SMissing -> ok = true).
 Proof.
   intros w ok w' H. unfold k_open_src in H. popd w o w1 P.
-  destruct o; [| |inversion H; subst; wcbn; repeat split; try congruence; try discriminate];
-    (destruct (w_skind w1) eqn:K; inversion H; subst; wcbn; repeat split; try congruence; try discriminate).
+  destruct (pop_script _ _ _ P) as [Ho Hs].
+  destruct o as [|k|e].
+  3: { inversion H; subst; wcbn. repeat split; try congruence; try discriminate.
+       intro Hh. destruct (w_script w) as [|x l]; cbn in Ho; subst; discriminate. }
+  all: destruct (w_skind w1) eqn:K; inversion H; subst; wcbn; repeat split; try congruence; try discriminate.
 Qed.
 
 Lemma k_stat_dst_spec : forall w r w', k_stat_dst w = (r, w') ->
@@ -475,47 +484,277 @@ Proof.
 Qed.
 
 Lemma copy_blocks_spec : forall src bs fuel w,
-  (0 < bs)%nat -> Inv2 src w [] -> (length src - w_soff w < fuel)%nat ->
+  Inv2 src w [] -> (length src - w_soff w < fuel)%nat ->
   exists st w' rest, copy_blocks fuel w bs = (st, w') /\ same_env w w' /\ Inv2 src w' rest /\
     st <> OUT_OF_FUEL /\
-    (st = SUCCESS -> (rest = [] /\ w_soff w' = length src /\ w_errno w' = w_errno w) \/ (exists e, w_errno w' = Z.pos e)) /\
-    (fault_freeS (w_script w) ->
+    (st = SUCCESS -> (0 < bs)%nat ->
+       (rest = [] /\ w_soff w' = length src /\ w_errno w' = w_errno w) \/ (exists e, w_errno w' = Z.pos e)) /\
+    (fault_freeS (w_script w) -> (0 < bs)%nat ->
        st = SUCCESS /\ w_errno w' = w_errno w /\ w_soff w' = length src /\ rest = [] /\ fault_freeS (w_script w')).
 Proof.
-  intros src bs fuel. induction fuel as [|f IH]; intros w Hbs HI Hf; [lia|].
+  intros src bs fuel. induction fuel as [|f IH]; intros w HI Hf; [lia|].
   cbn [copy_blocks].
   destruct (k_read w bs) as [[n data] w1] eqn:K.
   destruct (k_read_spec src w bs n data w1 HI K) as (SE & Sc & [(R & D & I1 & (e & Ee) & He)|(R & I1 & Ee & So & Ln & Zn)]).
   - subst n. cbn [Z.ltb Z.compare].
     exists SUCCESS, w1, []. split; [reflexivity|]. split; [exact SE|]. split; [exact I1|].
-    split; [discriminate|]. split; [intros _; right; eauto|].
+    split; [discriminate|]. split; [intros _ _; right; eauto|].
     intro FF. apply fault_free_hd in FF. congruence.
   - subst n. destruct data as [|x data'].
     + cbn [length Z.of_nat Z.ltb Z.compare].
-      assert (Hend : w_soff w = length src) by (destruct (Zn eq_refl); [lia|assumption]).
       cbn [length] in So. rewrite Nat.add_0_r in So.
       exists SUCCESS, w1, []. split; [reflexivity|]. split; [exact SE|]. split; [exact I1|].
-      split; [discriminate|]. split; [intros _; left; repeat split; congruence|].
-      intro FF. repeat split; try congruence. rewrite Sc. apply fault_free_tl. exact FF.
+      split; [discriminate|].
+      assert (Hend : (0 < bs)%nat -> w_soff w = length src) by (intro Hbs; destruct (Zn eq_refl); [lia|assumption]).
+      split; [intros _ Hbs; left; repeat split; try congruence; rewrite So; auto|].
+      intros FF Hbs. repeat split; try congruence; try (rewrite So; auto). rewrite Sc. apply fault_free_tl. exact FF.
     + remember (x :: data') as data eqn:Hdata.
       replace (0 <? Z.of_nat (length data)) with true by (symmetry; apply Z.ltb_lt; subst data; cbn [length]; lia).
       destruct (write_loop_spec src (S (length data)) w1 data I1) as (res & w2 & L & SE2 & So2 & C & FFc); [lia|].
       rewrite L.
       destruct C as [(Rn & I2 & Ee2)|(st & rest' & Rs & Ns & Nf & I2)].
       * subst res.
-        destruct (IH w2 Hbs I2) as (st & w' & rest & CB & SE3 & I3 & Nf & Cs & FF3).
+        destruct (IH w2 I2) as (st & w' & rest & CB & SE3 & I3 & Nf & Cs & FF3).
         { destruct I1 as [_ [dn (_ & _ & _ & Hb)]]. rewrite So2, So. rewrite So in Hb.
           subst data. cbn [length] in *. lia. }
         exists st, w', rest. split; [exact CB|].
         split; [eapply same_env_trans; [exact SE|eapply same_env_trans; eassumption]|].
         split; [exact I3|]. split; [exact Nf|]. split.
-        -- intro S. destruct (Cs S) as [(A & B & C)|C]; [left; repeat split; try assumption; congruence|right; exact C].
-        -- intro FF. assert (FF1 : fault_freeS (w_script w1)) by (rewrite Sc; apply fault_free_tl; exact FF).
-           destruct (FFc FF1) as [_ FF2]. destruct (FF3 FF2) as (A & B & C & D & E).
+        -- intros S Hbs. destruct (Cs S Hbs) as [(A & B & C)|C]; [left; repeat split; try assumption; congruence|right; exact C].
+        -- intros FF Hbs. assert (FF1 : fault_freeS (w_script w1)) by (rewrite Sc; apply fault_free_tl; exact FF).
+           destruct (FFc FF1) as [_ FF2]. destruct (FF3 FF2 Hbs) as (A & B & C & D & E).
            repeat split; try assumption; congruence.
       * subst res. exists st, w2, rest'. split; [reflexivity|].
         split; [eapply same_env_trans; eassumption|]. split; [exact I2|]. split; [exact Nf|].
         split; [intro S; contradiction|].
-        intro FF. assert (FF1 : fault_freeS (w_script w1)) by (rewrite Sc; apply fault_free_tl; exact FF).
+        intros FF _. assert (FF1 : fault_freeS (w_script w1)) by (rewrite Sc; apply fault_free_tl; exact FF).
         destruct (FFc FF1) as [X _]. discriminate.
+Qed.
+
+(* ---------------------------------------------------------------- closing *)
+Definition remove_opt (t : option fdtok) (l : list fdtok) : list fdtok :=
+  match t with Some x => remove_tok x l | None => l end.
+
+(* what finishing leaves alone: the files *)
+Definition same_files (w w' : world) : Prop :=
+  w_skind w' = w_skind w /\ w_src w' = w_src w /\ w_dst w' = w_dst w.
+Lemma same_files_refl : forall w, same_files w w. Proof. repeat split. Qed.
+Lemma same_files_trans : forall a b c, same_files a b -> same_files b c -> same_files a c.
+Proof. unfold same_files; intuition congruence. Qed.
+Lemma frame_same_files : forall w w', frame w w' -> same_files w w'.
+Proof. unfold frame, same_files; intuition. Qed.
+
+Lemma close_opt_spec : forall w (t : option fdtok) rc w',
+  match t with Some x => k_close w x | None => (0, w) end = (rc, w') ->
+  same_files w w' /\ w_fds w' = remove_opt t (w_fds w) /\
+  ((rc = 0 /\ w_errno w' = w_errno w) \/ (rc = -1 /\ exists e, w_errno w' = Z.pos e)) /\
+  (fault_freeS (w_script w) -> rc = 0 /\ fault_freeS (w_script w')).
+Proof.
+  intros w t rc w' H. destruct t as [x|].
+  - destruct (k_close_spec w x rc w' H) as (A & B & C & D & E0).
+    split; [repeat split; assumption|]. split; [exact D|]. split; [exact E0|].
+    intro FF. unfold k_close in H. destruct (pop w) as [o w1] eqn:P.
+    destruct (pop_script _ _ _ P) as [Ho Hs]. pose proof (fault_free_hd _ FF) as Hh. rewrite <- Ho in Hh.
+    destruct o; try discriminate; inversion H; subst; wcbn; (split; [reflexivity|]);
+      rewrite Hs; apply fault_free_tl; exact FF.
+  - inversion H; subst. split; [apply same_files_refl|]. split; [reflexivity|]. split; [left; auto|]. tauto.
+Qed.
+
+Lemma close_fds_spec : forall w fd1 fd2 st w', close_fds w fd1 fd2 = (st, w') ->
+  same_files w w' /\ w_fds w' = remove_opt fd2 (remove_opt fd1 (w_fds w)) /\
+  st <> OUT_OF_FUEL /\ (st = SUCCESS -> w_errno w = 0) /\
+  (fault_freeS (w_script w) -> w_errno w = 0 -> st = SUCCESS /\ fault_freeS (w_script w')).
+Proof.
+  intros w fd1 fd2 st w' H. unfold close_fds in H.
+  destruct (match fd1 with Some t => k_close w t | None => (0, w) end) as [r1 w1] eqn:C1.
+  destruct (match fd2 with Some t => k_close w1 t | None => (0, w1) end) as [r2 w2] eqn:C2.
+  destruct (close_opt_spec _ _ _ _ C1) as (F1 & D1 & E1 & FF1).
+  destruct (close_opt_spec _ _ _ _ C2) as (F2 & D2 & E2 & FF2).
+  inversion H; subst st w'. clear H.
+  split; [eapply same_files_trans; eassumption|]. split; [congruence|].
+  split.
+  - apply st_or_not_fuel; [apply errno_status_not_fuel|].
+    apply st_or_not_fuel; [destruct (r1 =? 0); [discriminate|apply errno_status_not_fuel]|
+                           destruct (r2 =? 0); [discriminate|apply errno_status_not_fuel]].
+  - split.
+    + intro S. apply st_or_success in S. destruct S as [S _]. apply errno_status_success_iff in S. exact S.
+    + intros FF E0. destruct (FF1 FF) as [R1 FFa]. destruct (FF2 FFa) as [R2 FFb].
+      subst r1 r2. cbn [Z.eqb]. rewrite E0. split; [reflexivity|exact FFb].
+Qed.
+
+Lemma finish_copy_spec : forall w dst_fd src_fd st0 st w', finish_copy w dst_fd src_fd st0 = (st, w') ->
+  same_files w w' /\ w_fds w' = remove_opt src_fd (remove_opt dst_fd (w_fds w)) /\
+  (st0 <> OUT_OF_FUEL -> st <> OUT_OF_FUEL) /\
+  (st = SUCCESS -> st0 = SUCCESS /\ w_errno w = 0) /\
+  (st0 <> SUCCESS -> st = st0) /\
+  (fault_freeS (w_script w) -> w_errno w = 0 -> st0 = SUCCESS -> st = SUCCESS).
+Proof.
+  intros w dst_fd src_fd st0 st w' H. unfold finish_copy in H.
+  destruct (match dst_fd with Some _ => k_fdatasync w | None => (0, w) end) as [rc w1] eqn:S1.
+  destruct (close_fds w1 dst_fd src_fd) as [st1 w2] eqn:C.
+  inversion H; subst st w'. clear H.
+  destruct (close_fds_spec _ _ _ _ _ C) as (F2 & D2 & N2 & S2 & FF2).
+  assert (X : frame w w1 /\ ((rc = 0 /\ w_errno w1 = w_errno w) \/ (rc = -1 /\ exists e, w_errno w1 = Z.pos e)) /\
+              (fault_freeS (w_script w) -> rc = 0 /\ fault_freeS (w_script w1))).
+  { destruct dst_fd as [t|].
+    - destruct (k_fdatasync_spec _ _ _ S1) as [F X]. split; [exact F|]. split; [exact X|].
+      intro FF. unfold k_fdatasync in S1. destruct (pop w) as [o w0] eqn:P.
+      destruct (pop_script _ _ _ P) as [Ho Hs]. pose proof (fault_free_hd _ FF) as Hh. rewrite <- Ho in Hh.
+      destruct o; try discriminate; inversion S1; subst; wcbn; (split; [reflexivity|]);
+        rewrite Hs; apply fault_free_tl; exact FF.
+    - inversion S1; subst. split; [apply frame_refl|]. split; [left; auto|]. tauto. }
+  destruct X as (F1 & E1 & FF1).
+  split; [eapply same_files_trans; [apply frame_same_files; exact F1|exact F2]|].
+  split; [destruct F1 as (_&_&_&_&_&Fd); rewrite D2, Fd; reflexivity|].
+  split.
+  - intro N0. apply st_or_not_fuel; [exact N0|]. apply st_or_not_fuel; [|exact N2].
+    unfold posix_status. destruct (rc =? 0); [discriminate|apply errno_status_not_fuel].
+  - split; [|split].
+    + intro S. apply st_or_success in S. destruct S as [Sa S]. apply st_or_success in S. destruct S as [Sb Sc].
+      split; [exact Sa|]. specialize (S2 Sc).
+      destruct E1 as [(R & Ee)|(R & e & Ee)]; [congruence|].
+      subst rc. unfold posix_status in Sb. cbn [Z.eqb] in Sb. rewrite Ee in Sb.
+      exfalso. exact (errno_status_pos e Sb).
+    + intro N0. unfold st_or. destruct (is_success st0) eqn:I; [apply is_success_true in I; contradiction|reflexivity].
+    + intros FF E0 ->. destruct (FF1 FF) as [R FFa]. subst rc.
+      destruct E1 as [(_ & Ee)|(R & _)]; [|discriminate].
+      destruct (FF2 FFa) as [Sx _]; [congruence|].
+      unfold posix_status. cbn [Z.eqb]. rewrite Sx. reflexivity.
+Qed.
+
+(* ---------------------------------------------------------------- from the kernel copy to the end *)
+Definition blk_sane (b1 b2 : Z) : Prop := b1 < 2 ^ 32 /\ b2 < 2 ^ 32.
+
+Lemma get_block_size_pos : forall b1 b2, blk_sane b1 b2 -> 0 < get_block_size b1 b2.
+Proof.
+  intros b1 b2 [H1 H2]. unfold get_block_size.
+  destruct (0 <? b1) eqn:A; destruct (0 <? b2) eqn:B; cbn [andb]; try lia.
+  apply Z.ltb_lt in A. apply Z.ltb_lt in B. rewrite Z.mod_small; lia.
+Qed.
+
+Lemma Inv2_complete : forall src w, Inv2 src w [] -> w_soff w = length src -> w_dst w = DFile src.
+Proof.
+  intros src w [_ [done (Hd & _ & Happ & _)]] Hs. rewrite Hs, firstn_all, app_nil_r in Happ. congruence.
+Qed.
+
+Lemma Inv2_dst : forall src w rest, Inv2 src w rest -> exists b, w_dst w = DFile b.
+Proof. intros src w rest [_ [done (Hd & _)]]. eauto. Qed.
+
+Lemma Inv2_src : forall src w rest, Inv2 src w rest -> w_src w = src.
+Proof. intros src w rest [H _]. exact H. Qed.
+
+Definition buffer_size_of (b1 b2 : Z) (al : alloc_answer) : nat :=
+  match al with AOk => Z.to_nat (get_block_size b1 b2) | AFail _ => stack_buf_size end.
+
+Lemma buffer_size_pos : forall b1 b2 al, blk_sane b1 b2 -> (0 < buffer_size_of b1 b2 al)%nat.
+Proof.
+  intros b1 b2 al H. unfold buffer_size_of. destruct al.
+  - pose proof (get_block_size_pos b1 b2 H). lia.
+  - unfold stack_buf_size. lia.
+Qed.
+
+(* the world in which copy_blocks starts, after the fadvise calls and the allocation *)
+Definition before_blocks (w : world) (b1 b2 : Z) (al : alloc_answer) : world :=
+  let w := k_fadvise w 0 in
+  let w := k_fadvise w 1 in
+  let w := match al with
+           | AOk => log w KAlloc (get_block_size b1 b2) 1
+           | AFail e => log (if e =? 0 then w else set_errno w e) KAlloc (get_block_size b1 b2) 0
+           end in
+  set_errno w 0.
+
+Lemma before_blocks_spec : forall w b1 b2 al,
+  frame w (before_blocks w b1 b2 al) /\ w_errno (before_blocks w b1 b2 al) = 0 /\
+  w_script (before_blocks w b1 b2 al) = tl (tl (w_script w)).
+Proof.
+  intros w b1 b2 al. unfold before_blocks.
+  destruct (k_fadvise_spec w 0) as [F1 _]. destruct (k_fadvise_spec (k_fadvise w 0) 1) as [F2 _].
+  assert (S1 : forall w which, w_script (k_fadvise w which) = tl (w_script w)).
+  { intros v which. unfold k_fadvise. destruct (pop v) as [o v1] eqn:P.
+    destruct (pop_script _ _ _ P) as [_ Hs]. destruct o; wcbn; exact Hs. }
+  split; [|split].
+  - eapply frame_trans; [exact F1|]. eapply frame_trans; [exact F2|].
+    destruct al as [|e]; [|destruct (e =? 0)]; unfold frame; wcbn; auto 10.
+  - reflexivity.
+  - destruct al as [|e]; [|destruct (e =? 0)]; wcbn; rewrite !S1; reflexivity.
+Qed.
+
+Lemma copy_body_unfold : forall w size b1 b2 al,
+  copy_body w size b1 b2 al =
+  let (st, w1) := zix_copy_file_range w size in
+  if negb (status_eqb st NOT_SUPPORTED) then finish_copy w1 (Some FDst) (Some FSrc) st else
+  let (st2, w2) := copy_blocks (S size) (before_blocks w1 b1 b2 al) (buffer_size_of b1 b2 al) in
+  finish_copy (log w2 KFree (match al with AOk => 1 | AFail _ => 0 end) 0) (Some FDst) (Some FSrc) st2.
+Proof.
+  intros. unfold copy_body, before_blocks, buffer_size_of.
+  destruct (zix_copy_file_range w size) as [st w1]. reflexivity.
+Qed.
+
+Lemma copy_body_spec : forall src w b1 b2 al st w',
+  Inv2 src w [] -> w_soff w = O -> w_fds w = [FDst; FSrc] ->
+  copy_body w (length src) b1 b2 al = (st, w') ->
+  w_skind w' = w_skind w /\ w_src w' = src /\ w_fds w' = [] /\ st <> OUT_OF_FUEL /\
+  exists b, w_dst w' = DFile b /\ (blk_sane b1 b2 -> st = SUCCESS -> b = src).
+Proof.
+  intros src w b1 b2 al st w' HI Ho Hfd H. rewrite copy_body_unfold in H.
+  destruct (zix_copy_file_range w (length src)) as [st1 w1] eqn:C.
+  destruct (copy_file_range_spec src w HI Ho st1 w1 C) as (SE1 & I1 & NF1 & S1 & N1 & _).
+  destruct (negb (status_eqb st1 NOT_SUPPORTED)) eqn:NS.
+  - destruct (finish_copy_spec _ _ _ _ _ _ H) as (F & D & NF & S & _).
+    destruct F as (Fk & Fs & Fd). destruct SE1 as [K1 D1].
+    split; [congruence|]. split; [rewrite Fs; eapply Inv2_src; exact I1|].
+    split; [rewrite D, D1, Hfd; reflexivity|]. split; [auto|].
+    destruct (Inv2_dst _ _ _ I1) as [b Hbd]. exists b. split; [congruence|].
+    intros _ Ss. destruct (S Ss) as [Sa _]. destruct (S1 Sa) as [Sf _].
+    pose proof (Inv2_complete _ _ I1 Sf). congruence.
+  - destruct (before_blocks_spec w1 b1 b2 al) as (F0 & E0 & _).
+    set (w1' := before_blocks w1 b1 b2 al) in *.
+    assert (I1' : Inv2 src w1' []) by (eapply Inv2_frame; eassumption).
+    destruct (copy_blocks_spec src (buffer_size_of b1 b2 al) (S (length src)) w1' I1')
+      as (st2 & w2 & rest & CB & SE2 & I2 & NF2 & S2 & _); [lia|].
+    rewrite CB in H.
+    destruct (finish_copy_spec _ _ _ _ _ _ H) as (F & D & NF & S & _).
+    destruct F as (Fk & Fs & Fd). destruct SE1 as [K1 D1]. destruct SE2 as [K2 D2].
+    destruct F0 as (K0 & _ & _ & _ & _ & D0). wcbn.
+    split; [congruence|]. split; [rewrite Fs; eapply Inv2_src; exact I2|].
+    split; [rewrite D, D2, D0, D1, Hfd; reflexivity|]. split; [auto|].
+    destruct (Inv2_dst _ _ _ I2) as [b Hbd]. exists b. split; [congruence|].
+    intros Hb Ss. destruct (S Ss) as [Sa Se]. wcbn.
+    destruct (S2 Sa (buffer_size_pos _ _ _ Hb)) as [(R & Sf & _)|(e & Ee)]; [|congruence].
+    subst rest. pose proof (Inv2_complete _ _ I2 Sf). congruence.
+Qed.
+
+(* fault-free runs succeed, also when the kernel copy is unavailable *)
+Lemma copy_body_ff : forall src w b1 b2 al st w',
+  Inv2 src w [] -> w_soff w = O -> fault_freeS (w_script w) ->
+  copy_body w (length src) b1 b2 al = (st, w') -> st = SUCCESS.
+Proof.
+  intros src w b1 b2 al st w' HI Ho FF H. rewrite copy_body_unfold in H.
+  destruct (zix_copy_file_range w (length src)) as [st1 w1] eqn:C.
+  destruct (copy_file_range_spec src w HI Ho st1 w1 C) as (SE1 & I1 & NF1 & S1 & N1 & F1).
+  destruct (F1 FF) as [-> FF1]. cbn [status_eqb negb] in H.
+  destruct (S1 eq_refl) as [_ E1].
+  destruct (finish_copy_spec _ _ _ _ _ _ H) as (_ & _ & _ & _ & _ & X). apply X; auto.
+Qed.
+
+Lemma copy_body_unsupported : forall src w b1 b2 al st w' e,
+  Inv2 src w [] -> w_soff w = O -> blk_sane b1 b2 -> (0 < length src)%nat ->
+  hd Full (w_script w) = Err e -> unsupported_errno e = true -> fault_freeS (tl (w_script w)) ->
+  copy_body w (length src) b1 b2 al = (st, w') -> st = SUCCESS.
+Proof.
+  intros src w b1 b2 al st w' e HI Ho Hb Hl He Hu FF H. rewrite copy_body_unfold in H.
+  destruct (copy_file_range_unsupported w (length src) e He Hu Hl) as (w1 & C & F1 & Sc1).
+  rewrite C in H. cbn [status_eqb negb] in H.
+  destruct (before_blocks_spec w1 b1 b2 al) as (F0 & E0 & Sc0).
+  set (w1' := before_blocks w1 b1 b2 al) in *.
+  assert (I1' : Inv2 src w1' []) by (eapply Inv2_frame; [exact F0|eapply Inv2_frame; eassumption]).
+  assert (So1 : w_soff w1' = O).
+  { destruct F0 as (_&_&_&A&_). destruct F1 as (_&_&_&B&_). congruence. }
+  destruct (copy_blocks_spec src (buffer_size_of b1 b2 al) (S (length src)) w1' I1')
+    as (st2 & w2 & rest & CB & SE2 & I2 & NF2 & S2 & F2); [lia|].
+  rewrite CB in H.
+  assert (FF1 : fault_freeS (w_script w1')).
+  { rewrite Sc0, Sc1. apply fault_free_tl, fault_free_tl. exact FF. }
+  destruct (F2 FF1 (buffer_size_pos _ _ _ Hb)) as (-> & Ee & _ & _ & FF2).
+  destruct (finish_copy_spec _ _ _ _ _ _ H) as (_ & _ & _ & _ & _ & X). apply X; wcbn; auto; congruence.
 Qed.
